@@ -9,7 +9,9 @@ package escape
 //@+   (c >= 128 ==> buflen(out) >= p + 2 && buflen(out) <= p + 4 && (forall k in [0, 4) :: p + k < buflen(out) ==> bufbyte(out, p + k) >= 128))
 
 //@ func escape.HTML
-//@   ensures res: sameview(result, bufstr(out))
+// the property itself, on the result alone: every byte of the output is in the safe alphabet of the context
+//@   ensures safe: forall k :: 0 <= k && k < len(result) ==> !html_bad(result[k])
+//@   asserts res: sameview(result, bufstr(out))
 //@   loop 1 invariant alpha: forall k :: 0 <= k && k < buflen(out) ==> !html_bad(bufbyte(out, k))
 //@   loop 1 invariant amp: forall k :: 0 <= k && k < buflen(out) && bufbyte(out, k) == 38 ==> k + 3 < buflen(out)
 //@   loop 1 invariant len: buflen(out) >= 0
@@ -19,7 +21,9 @@ package escape
 //@   loop 1 step frame: forall j :: 0 <= j && j < prev(buflen(out)) ==> bufbyte(out, j) == prev(bufbyte(out, j))
 
 //@ func escape.HTMLAttribute
-//@   ensures res: sameview(result, bufstr(out))
+// the property itself, on the result alone: every byte of the output is in the safe alphabet of the context
+//@   ensures safe: forall k :: 0 <= k && k < len(result) ==> (attr_alpha(result[k]) || result[k] == 120)
+//@   asserts res: sameview(result, bufstr(out))
 //@   loop 1 invariant alpha: forall k :: 0 <= k && k < buflen(out) ==> attr_alpha(bufbyte(out, k)) || bufbyte(out, k) == 120
 //@   loop 1 invariant len: buflen(out) >= 0
 //@   loop 1 step safe: attr_safe(c) ==> buflen(out) == prev(buflen(out)) + 1 && bufbyte(out, prev(buflen(out))) == c
@@ -30,7 +34,9 @@ package escape
 //@   loop 1 step frame: forall j :: 0 <= j && j < prev(buflen(out)) ==> bufbyte(out, j) == prev(bufbyte(out, j))
 
 //@ func escape.JS
-//@   ensures res: sameview(result, bufstr(out))
+// the property itself, on the result alone: every byte of the output is in the safe alphabet of the context
+//@   ensures safe: forall k :: 0 <= k && k < len(result) ==> js_alpha(result[k])
+//@   asserts res: sameview(result, bufstr(out))
 //@   loop 1 invariant alpha: forall k :: 0 <= k && k < buflen(out) ==> js_alpha(bufbyte(out, k))
 //@   loop 1 invariant len: buflen(out) >= 0
 //@   loop 1 step len: buflen(out) == prev(buflen(out)) + esclen_js(c)
@@ -38,7 +44,9 @@ package escape
 //@   loop 1 step frame: forall j :: 0 <= j && j < prev(buflen(out)) ==> bufbyte(out, j) == prev(bufbyte(out, j))
 
 //@ func escape.CSS
-//@   ensures res: sameview(result, bufstr(out))
+// the property itself, on the result alone: every byte of the output is in the safe alphabet of the context
+//@   ensures safe: forall k :: 0 <= k && k < len(result) ==> css_alpha(result[k])
+//@   asserts res: sameview(result, bufstr(out))
 //@   loop 1 invariant alpha: forall k :: 0 <= k && k < buflen(out) ==> css_alpha(bufbyte(out, k))
 //@   loop 1 invariant len: buflen(out) >= 0
 //@   loop 1 step len: buflen(out) == prev(buflen(out)) + esclen_css(c)
@@ -46,7 +54,9 @@ package escape
 //@   loop 1 step frame: forall j :: 0 <= j && j < prev(buflen(out)) ==> bufbyte(out, j) == prev(bufbyte(out, j))
 
 //@ func escape.URLQueryParam
-//@   ensures res: sameview(result, bufstr(out))
+// the property itself, on the result alone: every byte of the output is in the safe alphabet of the context
+//@   ensures safe: forall k :: 0 <= k && k < len(result) ==> url_alpha(result[k])
+//@   asserts res: sameview(result, bufstr(out))
 //@   loop 1 invariant alpha: forall k :: 0 <= k && k < buflen(out) ==> url_alpha(bufbyte(out, k))
 //@   loop 1 invariant len: buflen(out) >= 0
 //@   loop 1 invariant idx: 0 <= i && i <= len(in)
